@@ -38,6 +38,7 @@ var irFuncs = [][2]string{
 	{"Session.GetAndDelete", "GetAndDelete"},
 	{"Session.LogIn", "LogIn"},
 	{"Session.Get", "Get"},
+	{"Start", "Start"},
 }
 
 func emitIr(c *Ctx) {
@@ -118,6 +119,7 @@ type irTr struct {
 	names   map[*ast.Object]string // local object -> unique name
 	used    map[string]int         // source name -> number of objects seen with it
 	imports map[string]bool
+	loops   int // number of loops translated so far: a loop is identified by its ordinal in the function
 }
 
 func (t *irTr) text(n ast.Node) string {
@@ -266,6 +268,8 @@ func (t *irTr) expr(e ast.Expr) string {
 			return ".bin " + leanString(x.Op.String()) + " " + t.sub(x.X) + " " + t.sub(x.Y)
 		}
 		return t.unkE(e)
+	case *ast.MapType, *ast.ArrayType, *ast.InterfaceType, *ast.StarExpr:
+		return ".typ " + leanString(t.text(e))
 	case *ast.CallExpr:
 		if x.Ellipsis != token.NoPos {
 			return t.unkE(e)
@@ -481,6 +485,29 @@ func (t *irTr) stmt(s ast.Stmt, d int) []string {
 		return []string{".ite " + initS + " " + cond + " " + thenS + " " + elseS}
 	case *ast.ReturnStmt:
 		return []string{".ret " + t.exprs(x.Results)}
+	case *ast.ForStmt:
+		// `for init; cond; post { ... }` and `for cond { ... }`; a loop without a condition is outside the subset
+		if x.Cond == nil {
+			return t.unkS(s)
+		}
+		id := t.loops
+		t.loops++
+		initS, postS := "[]", "[]"
+		if x.Init != nil {
+			initS = "[" + strings.Join(t.stmt(x.Init, d+1), ", ") + "]"
+		}
+		cond := t.sub(x.Cond)
+		if x.Post != nil {
+			postS = "[" + strings.Join(t.stmt(x.Post, d+1), ", ") + "]"
+		}
+		return []string{fmt.Sprintf(".forCond %d %s %s %s %s", id, initS, cond, postS, t.block(x.Body.List, d+1))}
+	case *ast.BranchStmt:
+		if x.Tok == token.BREAK && x.Label == nil {
+			return []string{".brk"}
+		}
+		return t.unkS(s)
+	case *ast.IncDecStmt:
+		return []string{".incDec " + t.sub(x.X) + " " + leanString(x.Tok.String())}
 	case *ast.GoStmt:
 		fl, ok := x.Call.Fun.(*ast.FuncLit)
 		if !ok || len(x.Call.Args) != 0 || len(fl.Type.Params.List) != 0 || (fl.Type.Results != nil && len(fl.Type.Results.List) != 0) {
